@@ -113,3 +113,32 @@ func (h *Hijackable) Hijack() (net.Conn, *bufio.ReadWriter, error) {
 	h.Hijacked = true
 	return h.Conn, h.RW, nil
 }
+
+// PlainWriter is an http.ResponseWriter that does NOT implement
+// http.Hijacker (like httptest.ResponseRecorder, an HTTP/2 writer or a
+// middleware wrapper): what the handler answers is kept in Status/Hdr/Body.
+type PlainWriter struct {
+	Hdr                 http.Header
+	Status              int
+	Body                bytes.Buffer
+	HeaderAtWriteHeader http.Header // snapshot of the header map when the status was written
+}
+
+// NewPlainWriter returns an empty PlainWriter.
+func NewPlainWriter() *PlainWriter { return &PlainWriter{Hdr: http.Header{}} }
+
+func (p *PlainWriter) Header() http.Header { return p.Hdr }
+
+func (p *PlainWriter) WriteHeader(code int) {
+	if p.Status == 0 {
+		p.Status = code
+		p.HeaderAtWriteHeader = p.Hdr.Clone()
+	}
+}
+
+func (p *PlainWriter) Write(b []byte) (int, error) {
+	if p.Status == 0 {
+		p.WriteHeader(http.StatusOK)
+	}
+	return p.Body.Write(b)
+}
